@@ -6,11 +6,17 @@ Streams sent to the Lean driver (Driver/C06.lean) and to the real `qcelemental`:
   P  parse_nucleus_label(label)       — grammar-derived labels, near-misses, random strings
   R  reconcile_nucleus(**clues)       — elements/nuclides x clue subsets x perturbations x spellings x settings
   H/C the same calls through the LRU memo model vs the real lru_cache (exact `real` type, eviction)
+  R lines are also issued (a) at the edges of every setting: mtol in {0, 0.0, False, 1e-12 .. 2, True} with mass offsets on a
+  log scale / in ulps / in multiples of mtol, falsy clue values (A=0, Z=0, E='', mass=0, label=''), (b) in other call shapes
+  (options left out where the documented default is meant, leading positional arguments, verbose 0/1/2/left out) and
+  (c) atom-wise through the array entry points validate_and_fill_nuclei / from_arrays (settings forwarded by the caller).
 The oracle never consults the model: it reads the data file itself and states the property's clauses on the
 implementation's answers (soundness, default, documented error class, feedback, history independence).
 """
 from __future__ import annotations
 
+import contextlib
+import io
 import json
 import math
 from decimal import Decimal
@@ -48,6 +54,8 @@ THEOREMS = [
     ("QcelVerif.Nucleus.history_independent", "reconcile_nucleus behind the 512-entry memo table: whatever was called or cleared before, each call returns a result == the direct call"),
     ("QcelVerif.Nucleus.lookupRange_memo", "the driver's memoised per-element range table equals elRange"),
     ("QcelVerif.Nucleus.shipped_elements_default", "table-wide instances [decide +kernel, whole model under rd64 on the generated table]: every element row reconciles from Z alone, from its symbol alone and from its lower-cased symbol as label to (to_A(Z), Z, E, float(to_mass(Z)), True, '')"),
+    ("QcelVerif.Nucleus.zero_tolerance_exact", "mtol <= 0 (0, 0.0, False are honoured as given, never replaced by a default), any rounding function that maps no non-zero number to 0: success -> A = -1 or E+str(A) is tabulated with exactly the returned mass"),
+    ("QcelVerif.Nucleus.zero_tolerance_conflict", "mtol <= 0: a mass-number clue a and a mass clue m for element z -> error unless E+str(a) is tabulated with exactly the float m (exact-mass matching is not widened)"),
     ("QcelVerif.Nucleus.shipped_coherent", "shipped table [decide +kernel over the generated table]: E+str(to_A(Z)) is tabulated with the mass string of Z itself for every element (DefaultCoherent); Z -> symbol -> Z round-trips in strict mode; every nuclide mass string parses and lies within 1/4 u of its mass number"),
 ]
 TRANSLATORS = [gen_periodic.main]
@@ -59,13 +67,16 @@ TRUSTED_BASE = [
     "CPython `re` on the NUCLEUS pattern is modelled by a hand-written recogniser checked differentially (P lines)",
     "functools.lru_cache semantics (hit returns stored object and refreshes, exceptions not stored, LRU eviction at maxsize) modelled by Lru and checked on H lines including eviction",
     "harness/c06.py generators and the Python oracle (reads data/nist_2011_atomic_weights.py itself)",
+    "documented defaults of reconcile_nucleus (clues None, speclabel=True, nonphysical=False, mtol=1.0e-3: signature + docstring) are what an omitted option means; numpy's list -> ndarray conversion in validate_and_fill_nuclei keeps every clue equal by value (==)",
 ]
 ASSUMPTIONS = [
     "ASCII labels and symbols only (CPython's \\w, \\d, [A-Z] with IGNORECASE are Unicode-aware)",
     "A, Z, mass, real, mtol are int | float | bool with integral Z and A (int(1.5) == 1 would 'match' a clue it does not equal); speclabel and nonphysical are real bools (`speclabel is True` makes speclabel=1 behave differently from True although both share a cache key)",
-    "0 < mtol <= 0.25 u in the oracle's feedback clause: a window wide enough to reach a neighbouring nuclide (e.g. A=2, Z=1, mtol=2 returns A=2 with the mass of H1) is outside the physical meaning of mtol; finite masses",
+    "mtol >= 0 (with a negative tolerance not even the default isotope is 'within the tolerance'); 0 <= mtol <= 0.25 u in the oracle's feedback clause (mtol = 0 / 0.0 / False included: exact-mass matching): a window wide enough to reach a neighbouring nuclide (e.g. A=2, Z=1, mtol=2 returns A=2 with the mass of H1) is outside the physical meaning of mtol; finite masses",
     "'contradictory clues raise a validation error' is read as: a documented qcelemental error — ValidationError, or NotAnElementError when a clue names no element/nuclide (test_reconcile_nucleus_notanelementerror pins A=80,Z=27 to NotAnElementError)",
     "feeding back maps A = -1 to None as from_arrays does ('-1 equivalent to None'), label = user tag with speclabel=False",
+    "array entry points: atoms spaced 2 bohr apart, domain='qm', no fragment/charge input, A clue never -1 ('-1 equivalent to None' there); only the six nucleus fields of the returned record are looked at",
+    "verbose in {-1, 0, 1, 2, left out} with stdout captured; the printed text is not examined",
     "physical-range clause checked in exact rationals with a 1e-9 u exclusion band at the two edges (fl(mmax+0.5) may round); the Lean model evaluates the edges bit-exactly",
 ]
 RULE = (
@@ -74,17 +85,28 @@ RULE = (
     "non-symbol E (nuclide label, name, digits) | unparseable label} x label spelling (case, @/Gh(/gh(, leading A, _tag/digit tag, @mass) x "
     "speclabel x nonphysical x mtol in {1e-3,1e-4,1e-2,1e-6,0.1,0.125,0.25} x number typing (int/float/bool). quick: every element x 64 subsets + every "
     "nuclide x 3 sampled subsets/variants + sampled conflicts; thorough: every nuclide x 64 subsets + 10x samples. Distinct = encoded input line; "
-    "non-trivial = at least two clue kinds present, or a perturbed clue, or an error outcome. P: grammar-derived labels, single-edit near-misses, random strings."
+    "non-trivial = at least two clue kinds present, or a perturbed clue, or an error outcome. P: grammar-derived labels, single-edit near-misses, random strings. "
+    "Setting edges: nuclide x clue subset containing a mass and/or A clue x mtol in {0, 0.0, False, 1e-12, 1e-9, 1e-6, 1e-5, 1e-4, 1e-3, 1e-2, 0.1, 0.25, 0.3, 0.5, 1, 1.0, True, 2.0} x "
+    "mass offset {10^U(-13,0.5) | 1..10 ulp | mtol x {0.5, 0.999, 1, 1.001, 2, 10, 100} | 0} in either direction; falsy clues: one present clue replaced by "
+    "0 / 0.0 / False / '' (A, Z, E, mass, label). Call shapes: sampled cases re-issued with options left out where the documented default is meant, 0..9 leading "
+    "positional arguments, verbose in {-1,0,1,2,left out}; plus cases at mtol=1e-3/speclabel/physical with all three settings left out and offsets around 1e-3 / range edges. Array entry: batches of 1..6 atoms sharing speclabel/nonphysical/mtol through validate_and_fill_nuclei and "
+    "from_arrays (keyword settings given or left out at their defaults), each atom judged by the same oracle. History: the above mixed into the shuffled orders + "
+    "siblings that differ only in one setting (mtol / nonphysical / speclabel / verbose / call shape) issued back to back."
 )
 LEVEL_TEXT = (
     "proof of soundness/default/conflict/history clauses for the model over any table and any rounding function; feedback (idempotence) proved in full "
     "when a mass clue was supplied and otherwise only *partially* (self-consistency hypothesis; a kernel-checked counter-example shows it fails for wide windows); model tied to the code by "
-    "sampled + per-table-exhaustive differential correspondence, so the tie is evidence, not proof"
+    "sampled + per-table-exhaustive differential correspondence, so the tie is evidence, not proof; settings are explored at their edges (mtol = 0 proved exact "
+    "for the model and sampled on the code), omitted options are tied to the documented defaults and the array entry points to the scalar one by sampling only"
 )
 TECHNIQUE = "Lean 4 proof (structural: first-passing-candidate inversion, LRU invariant by induction over histories) + differential correspondence + Python oracle"
 
 MTOLS = [1.0e-3, 1.0e-3, 1.0e-3, 1.0e-4, 1.0e-2, 1.0e-6, 0.1, 0.125, 0.25]
 BAND = Fraction(1, 10**9)
+# the whole admissible range of the tolerance setting, falsy spellings of zero first (0 == 0.0 == False share a cache key)
+MTOLS_EDGE = [0, 0.0, False, 0, 0.0, 1.0e-12, 1.0e-9, 1.0e-6, 1.0e-5, 1.0e-4, 1.0e-3, 1.0e-2, 0.1, 0.25, 0.3, 0.5, 1, 1.0, True, 2.0]
+OFF_KINDS = ["logu", "logu", "logu", "ulp", "kmtol", "kmtol", "1e-4", "mtol", "mtol-ulp", "mtol+ulp", "exact"]
+DOC_DEFAULTS = {"A": None, "Z": None, "E": None, "mass": None, "real": None, "label": None, "speclabel": True, "nonphysical": False, "mtol": 1.0e-3}
 
 # ----------------------------------------------------------------------------------------
 # independent view of the table (read from the data file, not through periodic_table.py)
@@ -180,12 +202,17 @@ def num_unjson(j):
 
 
 def case_json(c):
-    return {k: (num_json(c[k]) if k in ("A", "Z", "mass", "real", "mtol") else c[k]) for k in FIELDS} | {"spec": spec_json(c.get("spec"))}
+    j = {k: (num_json(c[k]) if k in ("A", "Z", "mass", "real", "mtol") else c[k]) for k in FIELDS} | {"spec": spec_json(c.get("spec"))}
+    if c.get("call"):
+        j["call"] = c["call"]
+    return j
 
 
 def case_unjson(j):
     c = {k: (num_unjson(j[k]) if k in ("A", "Z", "mass", "real", "mtol") else j[k]) for k in FIELDS}
     c["spec"] = spec_unjson(j.get("spec"))
+    if j.get("call"):
+        c["call"] = j["call"]
     return c
 
 
@@ -228,11 +255,35 @@ def classify_exc(e) -> str:
     return "err other:" + type(e).__name__
 
 
+def omittable(c, k) -> bool:
+    """the option may be left out of the call: its value IS the documented default (same type, not merely ==)"""
+    v, d = c[k], DOC_DEFAULTS[k]
+    if d is None or isinstance(d, bool):
+        return v is d
+    return isinstance(v, float) and v == d
+
+
+def strip_call(c):
+    return {k: v for k, v in c.items() if k != "call"}
+
+
 def call_impl(c):
-    """-> ("ok", tuple) | ("err", text)"""
+    """-> ("ok", tuple) | ("err", text).  c['call'] (optional) = {'omit': [option names left out], 'npos': number of
+    leading positional arguments, 'verbose': int | None (left out)}; without it: all nine options by keyword, verbose=-1."""
+    call = c.get("call")
     try:
-        r = _rn()(A=c["A"], Z=c["Z"], E=c["E"], mass=c["mass"], real=c["real"], label=c["label"],
-                  speclabel=c["speclabel"], nonphysical=c["nonphysical"], mtol=c["mtol"], verbose=-1)
+        if not call:
+            r = _rn()(A=c["A"], Z=c["Z"], E=c["E"], mass=c["mass"], real=c["real"], label=c["label"],
+                      speclabel=c["speclabel"], nonphysical=c["nonphysical"], mtol=c["mtol"], verbose=-1)
+        else:
+            npos = call.get("npos", 0)
+            omit = [k for k in call.get("omit", []) if k in FIELDS[npos:] and omittable(c, k)]
+            args = [c[k] for k in FIELDS[:npos]]
+            kwargs = {k: c[k] for k in FIELDS[npos:] if k not in omit}
+            if call.get("verbose") is not None:
+                kwargs["verbose"] = call["verbose"]
+            with contextlib.redirect_stdout(io.StringIO()):
+                r = _rn()(*args, **kwargs)
     except Exception as e:  # noqa
         return ("err", classify_exc(e))
     return ("ok", r)
@@ -363,10 +414,10 @@ def tuples_equal(a, b) -> bool:
 
 
 def check_feedback(c, res, out: Outcome, jcase):
-    """'is reproduced when the output is fed back' — only stated for 0 < mtol <= 0.25 (ASSUMPTIONS)."""
+    """'is reproduced when the output is fed back' — only stated for 0 <= mtol <= 0.25 (ASSUMPTIONS)."""
     if res[0] != "ok":
         return
-    if not (0 < c["mtol"] <= 0.25):
+    if not (0 <= c["mtol"] <= 0.25):
         return
     T = tab()
     fb = feedback_case(c, res[1])
@@ -453,9 +504,11 @@ def build_label(rng, *, ghost, a, el, z, user, mtext):
     return core
 
 
-def gen_reconcile_case(rng, T: Tab, target, mask, variant, *, speclabel=None, nonphysical=None, mtol=None):
+def gen_reconcile_case(rng, T: Tab, target, mask, variant, *, speclabel=None, nonphysical=None, mtol=None, kinds=None, full_label=False):
     """target = (sym, z, a, masstext) with a = None for 'element only' (then A/mass clues carry the default isotope).
-    mask bits: 1 A, 2 Z, 4 E, 8 mass, 16 real, 32 label.  Returns a case dict (with 'spec' for the oracle)."""
+    mask bits: 1 A, 2 Z, 4 E, 8 mass, 16 real, 32 label.  Returns a case dict (with 'spec' for the oracle).
+    kinds: the mass-offset kinds to draw from for variant 'mass_off'; full_label: the label carries element, A and @mass.
+    variant 'falsy': one present clue (A, Z, E, mass, label) is replaced by a falsy value of its type."""
     sym, z, a, mtxt = target
     if a is None:
         a, mtxt = T.default[sym]
@@ -483,9 +536,18 @@ def gen_reconcile_case(rng, T: Tab, target, mask, variant, *, speclabel=None, no
     m_use = tabm
     lo, hi = T.range[sym]
     if variant == "mass_off":
-        kind = rng.choice(["1e-4", "mtol-ulp", "mtol", "mtol+ulp", "0.4", "0.6", "2", "half", "small"])
+        kind = rng.choice(kinds or ["1e-4", "mtol-ulp", "mtol", "mtol+ulp", "0.4", "0.6", "2", "half", "small"])
         sign = rng.choice([-1, 1])
-        if kind == "1e-4":
+        fmtol = float(mtol)
+        if kind == "logu":
+            m_use = tabm + sign * 10.0 ** rng.uniform(-13.0, 0.5)
+        elif kind == "ulp":
+            m_use = ulp_step(tabm, sign * rng.choice([1, 1, 2, 3, 10]))
+        elif kind == "kmtol":
+            m_use = tabm + sign * fmtol * rng.choice([0.5, 0.999, 1.001, 2.0, 10.0, 100.0])
+        elif kind == "exact":
+            m_use = tabm
+        elif kind == "1e-4":
             m_use = tabm + sign * 1.0e-4
         elif kind == "mtol":
             m_use = tabm + sign * mtol
@@ -511,6 +573,14 @@ def gen_reconcile_case(rng, T: Tab, target, mask, variant, *, speclabel=None, no
     if m_use < 0 or not math.isfinite(m_use):
         m_use = abs(m_use) if math.isfinite(m_use) else tabm
 
+    # which present clue is replaced by a falsy value
+    falsy_slot = None
+    if variant == "falsy":
+        present = [b for b in (1, 2, 4, 8, 32) if mask & b]
+        falsy_slot = rng.choice(present) if present else None
+        c["variant"] = f"falsy:{falsy_slot}"
+    zero = lambda: rng.choice([0, 0, 0.0, False])  # noqa: E731
+
     # which element clue carries the other element
     el_slots = [b for b in (2, 4, 32) if mask & b and (b != 32 or speclabel)]
     other_slot = rng.choice(el_slots) if (other is not None and el_slots) else None
@@ -520,11 +590,18 @@ def gen_reconcile_case(rng, T: Tab, target, mask, variant, *, speclabel=None, no
 
     if mask & 2:
         zz = T.sym2z[sym_for(2)]
-        c["Z"] = typed(rng, zz)
-        spec["z"].append(zz)
+        if falsy_slot == 2:
+            c["Z"] = zero()  # atomic number 0 is the table's dummy row 'X': a real element claim, conflicting with any other
+            spec["z"].append(0 if 0 in T.z2sym else None)
+        else:
+            c["Z"] = typed(rng, zz)
+            spec["z"].append(zz)
     if mask & 4:
         s4 = sym_for(4)
-        if variant == "nonsymbol_E":
+        if falsy_slot == 4:
+            c["E"] = ""
+            spec["z"].append(None)
+        elif variant == "nonsymbol_E":
             kind = rng.choice(["nuclide", "name", "digits", "junk", "D"])
             if kind == "nuclide":
                 c["E"] = rand_case(rng, f"{s4}{a}")
@@ -545,10 +622,16 @@ def gen_reconcile_case(rng, T: Tab, target, mask, variant, *, speclabel=None, no
             c["E"] = rand_case(rng, s4)
             spec["z"].append(T.sym2z[s4])
     if mask & 1:
-        c["A"] = typed(rng, a_use)
-        spec["a"].append(a_use)
+        if falsy_slot == 1:
+            c["A"] = zero()
+            spec["a"].append(0)
+        else:
+            c["A"] = typed(rng, a_use)
+            spec["a"].append(a_use)
     if mask & 8:
-        if rng.random() < 0.04 and float(round(m_use)) == m_use:
+        if falsy_slot == 8:
+            c["mass"] = zero()
+        elif rng.random() < 0.04 and float(round(m_use)) == m_use:
             c["mass"] = int(m_use)
         else:
             c["mass"] = m_use
@@ -562,14 +645,17 @@ def gen_reconcile_case(rng, T: Tab, target, mask, variant, *, speclabel=None, no
         spec["r"].append(rv)
     if mask & 32:
         if not speclabel:
-            lbl = rng.choice(["_tag", "Mine", "", "7", "_X_y", "@He4", "whatever_9", "H"])
+            lbl = "" if falsy_slot == 32 else rng.choice(["_tag", "Mine", "", "7", "_X_y", "@He4", "whatever_9", "H"])
             c["label"] = lbl
             spec["user"] = lbl.lower()
+        elif falsy_slot == 32:
+            c["label"] = ""  # offered as a nucleus specification, the empty label names nothing: unparseable
+            spec["bad"] = True
         else:
             s32 = sym_for(32)
-            use_el = rng.random() < 0.75
+            use_el = full_label or rng.random() < 0.75
             la = None
-            if use_el and rng.random() < 0.5:
+            if use_el and (full_label or rng.random() < 0.5):
                 la = a_use if not (variant == "second_A") else rng.choice([x for x in T.isos.get(sym, [a]) if x != a] or [a])
             if variant == "second_A" and use_el and la is None:
                 la = rng.choice([x for x in T.isos.get(sym, [a]) if x != a] or [a])
@@ -577,7 +663,7 @@ def gen_reconcile_case(rng, T: Tab, target, mask, variant, *, speclabel=None, no
             if not use_el and user is not None and not user.startswith("_"):
                 user = None
             lm = None
-            if rng.random() < 0.4:
+            if full_label or rng.random() < 0.4:
                 lmv = m_use
                 if variant == "second_mass":
                     lmv = ulp_step(m_use, rng.choice([-1, 1, 5])) if rng.random() < 0.5 else m_use + rng.choice([1e-5, -1e-3])
@@ -780,7 +866,147 @@ def gen_R(ctx: Ctx):
         c["spec"]["m"] = [c["mass"]]
         c["variant"] = "mass_off:mtol-exact"
         cases.append(c)
+    # ---- everything below was added after the streams above, which keep their random sequence ----
+    # setting edges: the tolerance over its whole admissible range (falsy zero in all three spellings, tiny, wide, int/bool) x
+    # mass offsets at every scale, on the clue subsets where the tolerance decides (mass -> A, A vs mass, label A@mass)
+    tol_masks = [2 | 8, 4 | 8, 1 | 2 | 8, 1 | 4 | 8, 32, 32 | 8, 1 | 32, 2 | 32, 4 | 8 | 16, 1 | 2, 1 | 4 | 8 | 32, 2 | 8 | 32]
+    for _ in range(ctx.scale(8000, 60000)):
+        t = rng.choice(light) if rng.random() < 0.4 else rng.choice(T.nuclides)
+        mask = rng.choice(tol_masks) if rng.random() < 0.8 else (rng.randrange(64) | rng.choice([1, 8]))
+        full = bool(mask & 32) and rng.random() < 0.7
+        add(t, mask, "mass_off" if rng.random() < 0.85 else "consistent", mtol=rng.choice(MTOLS_EDGE), kinds=OFF_KINDS,
+            full_label=full, speclabel=True if full else None)
+    # every element's default isotope against a zero tolerance: mass clue a hair off / exactly on
+    for z, sym in zip(T.Z, T.E):
+        for mt in (0, 0.0, False):
+            add((sym, z, None, None), rng.choice([2 | 8, 4 | 8, 1 | 4 | 8, 32]), "mass_off", mtol=mt, kinds=["logu", "ulp", "exact"],
+                full_label=True, speclabel=True, nonphysical=False)
+    # falsy clue values: one present clue replaced by 0 / 0.0 / False / '' — a clue all the same, never "not given"
+    for _ in range(ctx.scale(3000, 25000)):
+        t = rng.choice(light) if rng.random() < 0.4 else rng.choice(T.nuclides)
+        add(t, rng.randrange(1, 64), "falsy", mtol=rng.choice(MTOLS_EDGE) if rng.random() < 0.3 else None)
+    # the documented defaults, meant by leaving the option out: offsets around the default tolerance / outside the physical range
+    for _ in range(ctx.scale(1500, 10000)):
+        t = rng.choice(light) if rng.random() < 0.4 else rng.choice(T.nuclides)
+        mask = rng.choice(tol_masks) if rng.random() < 0.8 else rng.randrange(1, 64)
+        full = bool(mask & 32) and rng.random() < 0.7
+        add(t, mask, rng.choice(["mass_off", "mass_off", "mass_off", "range_edge", "consistent"]), mtol=1.0e-3, speclabel=True, nonphysical=False,
+            kinds=OFF_KINDS + ["0.4", "0.6", "2"], full_label=full)
+        c = cases[-1]
+        c["call"] = {"omit": [k for k in FIELDS if omittable(c, k) and (k in SETTINGS or rng.random() < 0.7)], "npos": 0, "verbose": rng.choice([-1, -1, 0, None])}
+    # other call shapes of sampled cases: options left out where the documented default is meant, positional, verbose
+    for c in rng.sample([c for c in cases if "call" not in c], ctx.scale(6000, 40000)):
+        d = dict(c)
+        d["call"] = rand_call(rng, d)
+        cases.append(d)
     return cases
+
+
+def rand_call(rng, c):
+    npos = rng.choice([0, 0, 0, 1, 2, 3, 6, 9, rng.randrange(10)])
+    omit = [k for k in FIELDS[npos:] if omittable(c, k) and rng.random() < 0.8]
+    return {"omit": omit, "npos": npos, "verbose": rng.choice([-1, -1, 0, 1, 2, None])}
+
+
+# ----------------------------------------------------------------------------------------
+# array entry points: the same clues atom-wise through validate_and_fill_nuclei / from_arrays
+
+ARRAY_KEYS = [("A", "elea"), ("Z", "elez"), ("E", "elem"), ("mass", "mass"), ("real", "real"), ("label", "elbl")]
+SETTINGS = ("speclabel", "nonphysical", "mtol")
+
+
+def call_array(entry, atoms, shape):
+    """atoms: cases sharing speclabel/nonphysical/mtol.  -> ("ok", [6-tuple per atom]) | ("err", class text)"""
+    from qcelemental.molparse.from_arrays import from_arrays, validate_and_fill_nuclei
+
+    nat = len(atoms)
+    kw = {}
+    for f, name in ARRAY_KEYS:
+        col = [a[f] for a in atoms]
+        if all(v is None for v in col):
+            if name in shape.get("none_explicit", []):
+                kw[name] = None
+        else:
+            kw[name] = col
+    for k in SETTINGS:
+        if not (k in shape.get("omit", []) and omittable(atoms[0], k)):
+            kw[k] = atoms[0][k]
+    if shape.get("verbose") is not None:
+        kw["verbose"] = shape["verbose"]
+    try:
+        with contextlib.redirect_stdout(io.StringIO()):
+            if entry == "nuclei":
+                rec = validate_and_fill_nuclei(nat, **kw)
+            else:
+                rec = from_arrays(geom=[[2.0 * i, 0.0, 0.0] for i in range(nat)], **kw)
+    except Exception as e:  # noqa
+        return ("err", classify_exc(e))
+    try:
+        cols = [rec[name] for _, name in ARRAY_KEYS]
+        if any(len(col) != nat for col in cols):
+            return ("err", f"err other:shape {[len(col) for col in cols]}")
+        return ("ok", [(int(cols[0][i]), int(cols[1][i]), str(cols[2][i]), float(cols[3][i]), bool(cols[4][i]), str(cols[5][i])) for i in range(nat)])
+    except Exception as e:  # noqa
+        return ("err", "err other:record " + type(e).__name__)
+
+
+def check_V(ctx, out: Outcome, entry, atoms, shape, mls):
+    res = call_array(entry, atoms, shape)
+    out.evaluations += 1
+    out.count("array:" + entry)
+    out.count("array_outcome:" + ("ok" if res[0] == "ok" else res[1]))
+    jcase = {"op": "V", "entry": entry, "atoms": [case_json(strip_call(a)) for a in atoms], "shape": shape}
+    out.nontrivial("V " + entry + " " + json.dumps(shape, sort_keys=True) + " " + " ; ".join(enc_case(a) for a in atoms))
+    have_model = all(m is not None for m in mls)
+    first_err = next((canon_model(m) for m in mls if not m.startswith("ok ")), None) if have_model else None
+    if res[0] == "ok":
+        for i, (a, tup) in enumerate(zip(atoms, res[1])):
+            ci = canon_impl(("ok", tup))
+            for clause, msg in oracle(a, ("ok", tup)):
+                out.violations.append(Finding("oracle:" + clause, dict(jcase, atom=i), observed=ci, detail=f"[{entry}, atom {i} of {len(atoms)}] " + msg))
+            if have_model and (first_err is not None or canon_model(mls[i]) != ci):
+                out.mismatches.append(Finding("mismatch:array_entry", dict(jcase, atom=i), observed=ci, expected=first_err or canon_model(mls[i]),
+                                              detail=f"{entry} vs Lean model of the atom-wise reconcile_nucleus calls"))
+                break
+    else:
+        per = [oracle(a, res) for a in atoms]
+        if any(cl == "error_class" for cl, _ in per[0]):
+            out.violations.append(Finding("oracle:error_class", jcase, observed=res[1], detail=f"[{entry}] " + per[0][0][1]))
+        elif all(any(cl == "default" for cl, _ in p) for p in per):
+            out.violations.append(Finding("oracle:default", jcase, observed=res[1],
+                                          detail=f"[{entry}] every atom is a consistent element without isotope clue, yet the record was rejected ({res[1]})"))
+        if have_model and first_err != res[1]:
+            out.mismatches.append(Finding("mismatch:array_entry", jcase, observed=res[1], expected=first_err or "ok (every atom)",
+                                          detail=f"{entry} vs Lean model of the atom-wise reconcile_nucleus calls (first failing atom decides)"))
+    return res
+
+
+def array_stream(ctx, out: Outcome, cases, ml_of):
+    """batches of atoms sharing the three settings; 70 % drawn from atoms expected to reconcile (so that the record is
+    returned and every atom is judged), the rest from anything (first failing atom decides the error)."""
+    rng = ctx.rng
+    groups, good = {}, {}
+    for c in cases:
+        if "call" in c or (c["A"] is not None and c["A"] == -1):
+            continue
+        key = (c["speclabel"], c["nonphysical"], enc_num(c["mtol"]))
+        groups.setdefault(key, []).append(c)
+        ml = ml_of.get(enc_case(c))
+        if (ml.startswith("ok ") if ml is not None else c.get("variant") == "consistent"):
+            good.setdefault(key, []).append(c)
+    keys = sorted(groups, key=repr)
+    edge_keys = [k for k in keys if k[2] in ("i0", "f0", "b0")] or keys
+    for _ in range(ctx.scale(2600, 20000)):
+        r = rng.random()
+        key = rng.choice(edge_keys) if r < 0.25 else (rng.choice(keys) if r < 0.6 else (True, False, enc_num(1.0e-3)))
+        if key not in groups:
+            key = rng.choice(keys)
+        pool = good.get(key) if (rng.random() < 0.7 and good.get(key)) else groups[key]
+        atoms = [rng.choice(pool) for _ in range(rng.choice([1, 1, 2, 2, 3, 4, 6]))]
+        shape = {"omit": [k for k in SETTINGS if omittable(atoms[0], k) and rng.random() < 0.6],
+                 "none_explicit": [name for _, name in ARRAY_KEYS if rng.random() < 0.4],
+                 "verbose": rng.choice([-1, -1, 0, 1, None])}
+        check_V(ctx, out, rng.choice(["nuclei", "from_arrays"]), atoms, shape, [ml_of.get(enc_case(a)) for a in atoms])
 
 
 def gen_labels(ctx: Ctx):
@@ -905,7 +1131,7 @@ def history_stream(ctx, out: Outcome, cases):
     rn = _rn()
     pool = [c for c in cases if c["speclabel"] in (True, False)]
     rng.shuffle(pool)
-    base = pool[: ctx.scale(900, 4000)]
+    base = pool[: ctx.scale(1050, 4400)]
     # variants equal under Python == : retype numbers
     def retype(c):
         d = dict(c)
@@ -949,9 +1175,43 @@ def history_stream(ctx, out: Outcome, cases):
                     Finding("oracle:history", {"op": "HIST", "calls": [case_json(calls[j]) for j in order[: n + 1]][-40:], "clear_every": clear_every},
                             observed=canon_impl(r), expected=canon_impl(f), detail="answer after earlier calls differs (==) from the fresh answer"))
                 break
+    # siblings that differ in exactly one setting (or only in the call shape), issued back to back in one process: a setting
+    # must act on the call it is passed to — not stick from, nor be ignored because of, a neighbouring call with the same clues
+    def sibling(c):
+        d = strip_call(c)
+        which = rng.choice(["mtol", "mtol", "mtol", "nonphysical", "speclabel", "call"])
+        if which == "mtol":
+            d["mtol"] = rng.choice([m for m in MTOLS_EDGE if not (m == c["mtol"])])
+        elif which == "call":
+            d["call"] = rand_call(rng, d)
+        else:
+            d[which] = not c[which]
+        return d
+
+    with_mass = [c for c in base if c["mass"] is not None or (c["label"] is not None and "@" in c["label"][1:])]
+    for c in with_mass[: ctx.scale(400, 2500)]:
+        seq = [c, sibling(c), c, sibling(c)]
+        rng.shuffle(seq)
+        fr = []
+        for d in seq:
+            rn.cache_clear()
+            fr.append(call_impl(d))
+        rn.cache_clear()
+        for n, (d, f) in enumerate(zip(seq + seq, fr + fr)):
+            r = call_impl(d)
+            out.evaluations += 1
+            out.count("history_sibling_calls")
+            same = (r[0] == f[0]) and (r[1] == f[1] if r[0] == "err" else tuples_equal(r[1], f[1]))
+            if not same:
+                out.violations.append(
+                    Finding("oracle:history", {"op": "HIST", "calls": [case_json(x) for x in (seq + seq)[: n + 1]], "clear_every": None},
+                            observed=canon_impl(r), expected=canon_impl(f), detail="answer after sibling calls (same clues, one setting changed) differs (==) from the fresh answer"))
+                break
     # exact LRU correspondence: phase 1 with occasional cache_clear(), phase 2 without (so that > 512 distinct
-    # successful keys are live and eviction order matters), phase 3 re-asks early keys (evicted or not)
+    # successful keys are live and eviction order matters), phase 3 re-asks early keys (evicted or not).
+    # The memo model keys on the nine options; calls in other shapes (different lru keys in CPython) stay out of it.
     if ctx.model_available:
+        calls, fresh = map(list, zip(*[(c, f) for c, f in zip(calls, fresh) if "call" not in c]))
         ok_calls = [c for c, f in zip(calls, fresh) if f[0] == "ok"]
         seq = []
         for _ in range(ctx.scale(700, 3000)):
@@ -1008,6 +1268,7 @@ def run(ctx: Ctx) -> Outcome:
     if ctx.model_available:
         model = ctx.run_model(DRIVER, lines)
     _rn().cache_clear()
+    ml_of = {}
     for (kind, payload, exp), ml in zip(checks, model):
         if kind in ("float", "range"):
             out.evaluations += 1
@@ -1033,11 +1294,16 @@ def run(ctx: Ctx) -> Outcome:
                 out.mismatches.append(Finding("mismatch:parse", {"op": "P", "label": payload}, observed=ci, expected=ml, detail="parse_nucleus_label vs Lean recogniser"))
         else:
             check_R(ctx, out, payload, ml)
+            if ml is not None:
+                ml_of[enc_case(payload)] = ml
+    array_stream(ctx, out, cases, ml_of)
     history_stream(ctx, out, cases)
     out.exhaustive = False
     out.notes.append(
         f"R cases: {len(cases)} (every element x 64 clue subsets; every nuclide x {'64' if ctx.thorough else '3'} subsets + perturbed variants; sampled mixture); "
-        f"P labels: {len(labels)}; D floats: every tabulated mass string + random decimals; G: all {len(T.E)} elements"
+        f"P labels: {len(labels)}; D floats: every tabulated mass string + random decimals; G: all {len(T.E)} elements; "
+        f"of the R cases {sum(1 for c in cases if c['mtol'] == 0)} at mtol = 0 (0 / 0.0 / False), {sum(1 for c in cases if c['mtol'] > 0.25)} at mtol > 0.25, "
+        f"{sum(1 for c in cases if str(c.get('variant', '')).startswith('falsy'))} with a falsy clue, {sum(1 for c in cases if 'call' in c)} in another call shape"
     )
     return out
 
@@ -1077,6 +1343,11 @@ def replay(ctx: Ctx, case) -> Outcome:
         same = (last[0] == f[0]) and (last[1] == f[1] if last[0] == "err" else tuples_equal(last[1], f[1]))
         if not same:
             out.violations.append(Finding("oracle:history", case, observed=canon_impl(last), expected=canon_impl(f), detail="answer after earlier calls differs from the fresh answer"))
+    elif op == "V":
+        atoms = [case_unjson(j) for j in case["atoms"]]
+        _rn().cache_clear()
+        mls = ctx.run_model(DRIVER, ["R " + enc_case(a) for a in atoms]) if ctx.model_available else [None] * len(atoms)
+        check_V(ctx, out, case["entry"], atoms, case["shape"], mls)
     elif op == "H":
         lines = ["C"] + [("C" if l == "C" else "H " + l) for l in case["lines"]]
         out.notes.append("LRU correspondence replays need the recorded history; re-run the tier with the recorded seed")
